@@ -353,7 +353,7 @@ example : (events (runCmds exScripts World.init exCmds)).filter (fun e => match 
     = [.fire 3 1 0 "a" (some 3), .fire 43 1 1 "b" (some 3)] := by decide
 
 /-- `usage_exact` on the example: one chunk allocated, one call_out still pending -/
-example : (runCmds exScripts World.init (exCmds.take 9)).numCall = 20 ∧
+example : (runCmds exScripts World.init (exCmds.take 9)).numCall = Gen.C10.chunkSize ∧
     wheelSize (runCmds exScripts World.init (exCmds.take 9)) = 1 := by decide
 
 /-- the side condition of `handles_fit_int` is satisfiable on the non-trivial example history -/
